@@ -40,8 +40,9 @@ type SchedCfg struct {
 	MaxSteps      int  `json:"max_steps,omitempty"`
 	MaxSimSec     int  `json:"max_sim_sec,omitempty"`
 	// Slow names a hook-point family whose goroutines are released SlowDiv times less often (overrides the per-run draw)
-	Slow    string `json:"slow,omitempty"`
-	SlowDiv int    `json:"slow_div,omitempty"`
+	LazyClock bool   `json:"lazy_clock,omitempty"` // time passes only when no busy goroutine is parked (overrides the per-run draw)
+	Slow      string `json:"slow,omitempty"`
+	SlowDiv   int    `json:"slow_div,omitempty"`
 }
 
 type Cfg struct {
